@@ -204,6 +204,92 @@ def final_points(A):
     return pts, execok, postrun
 
 
+def rule_started_failed_dropped(A, R, rule):
+    C = A.classes()
+    pts, execok, postrun = final_points(A)
+    # R8.2: a started job that did not succeed loses both own records -----------------------------------
+    n = 0
+    for (s, st) in pts:
+        if not st or s in execok:
+            continue
+        if s in C["UpstreamFailed"]:
+            continue    # a started job is never reported upstream-failed (C07 R7.3)
+        n += 1
+        run = nh_run(A, "node|%s|none|started" % A.sname(s), "alljobs", [s], histout=0, started=True)
+        ops = out_ops(A, run)
+        rem = [v for v in ops if v["op"] == "remove"]
+        cls = set(classify_key(v["key"])[0] for v in rem if is_loop_key(v))
+        R.ob(rule, "new_history | job that was started and ended in %s | output record and input-list record are dropped" % A.sname(s),
+             {"job", "suffix"} <= cls, detail="records removed for this job: %s" % sorted(cls))
+        ins = [v for v in ops if v["op"] == "insert" and classify_key(v["key"])[0] in ("job", "suffix") and is_loop_key(v)]
+        R.ob(rule, "new_history | job that was started and ended in %s | no own record is written" % A.sname(s), not ins,
+             detail="an own record is inserted for a job that did not succeed", site=A.site(ins[0]) if ins else "")
+        # must: both removes on every path through the iteration
+        okm = True
+        for v in rem:
+            if classify_key(v["key"])[0] in ("job", "suffix") and is_loop_key(v):
+                o, why = must_in_iteration(A, run, v)
+                okm = okm and o
+        R.ob(rule, "new_history | %s | the removal is on every path of the job's iteration" % A.sname(s), okm and len(rem) >= 2)
+    R.floor(rule, "final points 'started, not successful'", n, 3)
+
+
+def rule_failed_edges_untouched(A, R, rule):
+    C = A.classes()
+    pts, execok, postrun = final_points(A)
+    # R8.3: the per-dependency records of a job that did not succeed are not refreshed -------------------
+    n = 0
+    for s in sorted(C["Finished"] & A.reach()):
+        if s not in C["FailedLike"]:
+            continue
+        n += 1
+        run = nh_run(A, "edgeb|%s|none" % A.sname(s), "edge_b", [s], histout=0)
+        ins = [v for v in out_ops(A, run) if v["op"] == "insert" and classify_key(v["key"])[0] == "pair"]
+        R.ob(rule, "new_history | downstream ended in %s without output | its per-dependency records are left as they were" % A.sname(s),
+             not ins, detail="an edge record into a failed/aborted/upstream-failed job is rewritten", site=A.site(ins[0]) if ins else "")
+    R.floor(rule, "failed-like final states", n, 9)
+
+
+def rule_never_started_kept(A, R, rule):
+    C = A.classes()
+    pts, execok, postrun = final_points(A)
+    sf = started_field(A)
+    n = 0
+    for (s, st) in pts:
+        if st or not (s in C["UpstreamFailed"] or s in C["Aborted"]):
+            continue
+        n += 1
+        for ho in (0, 1):
+            if ho == 1 and not may_have_output(A, s):
+                continue
+            run = nh_run(A, "node|%s|%s|notstarted" % (A.sname(s), "some" if ho else "none"), "alljobs", [s], histout=ho, started=False)
+            ops = [v for v in out_ops(A, run) if is_loop_key(v) and classify_key(v["key"])[0] in ("job", "suffix")]
+            rem = [v for v in ops if v["op"] == "remove"]
+            R.ob(rule, "new_history | job never started, ended in %s (output %s) | keeps its own records" % (A.sname(s), "set" if ho else "unset"),
+                 not rem, detail="the output / input-list record of a job that was never started is removed"
+                                 + ("" if sf is not None else " (the engine does not remember whether a job was started)"),
+                 site=A.site(rem[0]) if rem else "")
+            ins = [v for v in ops if v["op"] == "insert"]
+            bad = []
+            for v in ins:
+                ck = classify_key(v["key"])
+                vc = value_class(v["value"])
+                if ck[0] == "job":
+                    okv = all(p[0] == "histout" or (p[0] == "hist" and p[1][0] == "job") for p in vc)
+                else:
+                    okv = all(p[0] == "strategy" for p in vc)
+                if not okv:
+                    bad.append(v)
+            R.ob(rule, "new_history | job never started, ended in %s (output %s) | records written for it are re-inserts of what it had"
+                 % (A.sname(s), "set" if ho else "unset"), not bad, site=A.site(bad[0]) if bad else "")
+        # its per-dependency records: not refreshed (downstream view)
+        run = nh_run(A, "edgeb|%s|none" % A.sname(s), "edge_b", [s], histout=0)
+        ins = [v for v in out_ops(A, run) if v["op"] == "insert" and classify_key(v["key"])[0] == "pair"]
+        R.ob(rule, "new_history | job never started, ended in %s | its per-dependency records are not rewritten" % A.sname(s), not ins,
+             site=A.site(ins[0]) if ins else "")
+    R.floor(rule, "final points 'never started, upstream-failed or aborted'", n, 6)
+
+
 # =============================================================================================
 @prop("C08")
 def check_C08(A, R, tier):
@@ -267,42 +353,8 @@ def check_C08(A, R, tier):
             bad = [v for v in H[(hk, s)].by_kind("write_jobfield") if v["field"] == hf]
             if bad:
                 R.ob("R8.1", "%s handler | does not touch history_output" % A.kname(hk), False, site=A.site(bad[0]))
-    # R8.2: a started job that did not succeed loses both own records -----------------------------------
-    n = 0
-    for (s, st) in pts:
-        if not st or s in execok:
-            continue
-        if s in C["UpstreamFailed"]:
-            continue    # a started job is never reported upstream-failed (C07 R7.3)
-        n += 1
-        run = nh_run(A, "node|%s|none|started" % A.sname(s), "alljobs", [s], histout=0, started=True)
-        ops = out_ops(A, run)
-        rem = [v for v in ops if v["op"] == "remove"]
-        cls = set(classify_key(v["key"])[0] for v in rem if is_loop_key(v))
-        R.ob("R8.2", "new_history | job that was started and ended in %s | output record and input-list record are dropped" % A.sname(s),
-             {"job", "suffix"} <= cls, detail="records removed for this job: %s" % sorted(cls))
-        ins = [v for v in ops if v["op"] == "insert" and classify_key(v["key"])[0] in ("job", "suffix") and is_loop_key(v)]
-        R.ob("R8.2", "new_history | job that was started and ended in %s | no own record is written" % A.sname(s), not ins,
-             detail="an own record is inserted for a job that did not succeed", site=A.site(ins[0]) if ins else "")
-        # must: both removes on every path through the iteration
-        okm = True
-        for v in rem:
-            if classify_key(v["key"])[0] in ("job", "suffix") and is_loop_key(v):
-                o, why = must_in_iteration(A, run, v)
-                okm = okm and o
-        R.ob("R8.2", "new_history | %s | the removal is on every path of the job's iteration" % A.sname(s), okm and len(rem) >= 2)
-    R.floor("R8.2", "final points 'started, not successful'", n, 3)
-    # R8.3: the per-dependency records of a job that did not succeed are not refreshed -------------------
-    n = 0
-    for s in sorted(C["Finished"] & A.reach()):
-        if s not in C["FailedLike"]:
-            continue
-        n += 1
-        run = nh_run(A, "edgeb|%s|none" % A.sname(s), "edge_b", [s], histout=0)
-        ins = [v for v in out_ops(A, run) if v["op"] == "insert" and classify_key(v["key"])[0] == "pair"]
-        R.ob("R8.3", "new_history | downstream ended in %s without output | its per-dependency records are left as they were" % A.sname(s),
-             not ins, detail="an edge record into a failed/aborted/upstream-failed job is rewritten", site=A.site(ins[0]) if ins else "")
-    R.floor("R8.3", "failed-like final states", n, 9)
+    rule_started_failed_dropped(A, R, "R8.2")
+    rule_failed_edges_untouched(A, R, "R8.3")
     # R8.4: own records come and go in pairs
     pair_rule(A, R, "R8.4")
     R.explanation = ("Mechanism of each sentence, decided over all paths: history_output becomes Some only in the success event (for the "
@@ -376,40 +428,10 @@ def check_C09(A, R, tier):
     pts, execok, postrun = final_points(A)
     sf = started_field(A)
     R.info["started_field"] = A.L.ni_fields[sf]["name"] if sf is not None else None
-    n = 0
-    for (s, st) in pts:
-        if st or not (s in C["UpstreamFailed"] or s in C["Aborted"]):
-            continue
-        n += 1
-        for ho in (0, 1):
-            if ho == 1 and not may_have_output(A, s):
-                continue
-            run = nh_run(A, "node|%s|%s|notstarted" % (A.sname(s), "some" if ho else "none"), "alljobs", [s], histout=ho, started=False)
-            ops = [v for v in out_ops(A, run) if is_loop_key(v) and classify_key(v["key"])[0] in ("job", "suffix")]
-            rem = [v for v in ops if v["op"] == "remove"]
-            R.ob("R9.1", "new_history | job never started, ended in %s (output %s) | keeps its own records" % (A.sname(s), "set" if ho else "unset"),
-                 not rem, detail="the output / input-list record of a job that was never started is removed"
-                                 + ("" if sf is not None else " (the engine does not remember whether a job was started)"),
-                 site=A.site(rem[0]) if rem else "")
-            ins = [v for v in ops if v["op"] == "insert"]
-            bad = []
-            for v in ins:
-                ck = classify_key(v["key"])
-                vc = value_class(v["value"])
-                if ck[0] == "job":
-                    okv = all(p[0] == "histout" or (p[0] == "hist" and p[1][0] == "job") for p in vc)
-                else:
-                    okv = all(p[0] == "strategy" for p in vc)
-                if not okv:
-                    bad.append(v)
-            R.ob("R9.1", "new_history | job never started, ended in %s (output %s) | records written for it are re-inserts of what it had"
-                 % (A.sname(s), "set" if ho else "unset"), not bad, site=A.site(bad[0]) if bad else "")
-        # its per-dependency records: not refreshed (downstream view)
-        run = nh_run(A, "edgeb|%s|none" % A.sname(s), "edge_b", [s], histout=0)
-        ins = [v for v in out_ops(A, run) if v["op"] == "insert" and classify_key(v["key"])[0] == "pair"]
-        R.ob("R9.1", "new_history | job never started, ended in %s | its per-dependency records are not rewritten" % A.sname(s), not ins,
-             site=A.site(ins[0]) if ins else "")
-    R.floor("R9.1", "final points 'never started, upstream-failed or aborted'", n, 6)
+    rule_never_started_kept(A, R, "R9.1")
+    # R9.2 (necessary for 'no excess on resume'): stale-but-equivalent records are never compared textually
+    from rules_compare import rule_no_textual_record_compare
+    rule_no_textual_record_compare(A, R, "R9.2")
     R.explanation = ("First sentence decided: for every final point (state in upstream-failed/aborted, never started) the abstract run of "
                      "new_history reaches no removal keyed by the job and writes no per-dependency record into it; 'never started' is "
                      "the ghost bit 'passed Running', identified with a bool field of NodeInfo that is false at creation and set exactly "
@@ -613,6 +635,9 @@ def check_C12(A, R, tier):
             R.ob("R12", "%s | reads the output record under the plain job id" % short(v["fn"]), True, site=A.site(v))
     # what the recorded value is compared with
     cmp_rules(A, R)
+    # records are only ever compared through the configured comparison (otherwise 'unchanged' is judged textually)
+    from rules_compare import rule_no_textual_record_compare
+    rule_no_textual_record_compare(A, R, "R12.c")
     R.explanation = ("Writer/reader agreement (necessary for the fixpoint): per key class the template new_history writes and the templates "
                      "the next evaluation looks up are identical, and the quantity written (strategy input list of K; history_output of A; "
                      "history_output of K) is of the same provenance class as the quantity the reader compares the record with.")
